@@ -181,6 +181,57 @@ def parsePaths (s : String) : Option (List (List (Nat × Op))) :=
         | none => "none"
       | _, _, _, _, _, _ => "bad-case"
 
+/-! #### C05: does a charstring lie in the domain of `C05_progress` / `C05_quirks_irrelevant`? -/
+
+/-- bytes → tokens of the static grammar, checking `wfTok` on the way (the mask length depends on the
+grammar state); `none` = not a program of the grammar -/
+def tokRun : Nat → Spec.T2.Abs → List Nat → List Spec.T2.Tok → Option (Spec.T2.Abs × List Spec.T2.Tok)
+  | 0, _, _, _ => none
+  | _ + 1, a, [], acc => some (a, acc.reverse)
+  | f + 1, a, b0 :: rest, acc =>
+    let num (t : Spec.T2.Tok) (r : List Nat) := (Spec.T2.wfTok a t).bind fun a' => tokRun f a' r (t :: acc)
+    if 32 ≤ b0 ∧ b0 ≤ 246 then num (.int ((b0 : Int) - 139)) rest
+    else if 247 ≤ b0 ∧ b0 ≤ 250 then
+      match rest with
+      | b1 :: r => num (.int (((b0 : Int) - 247) * 256 + b1 + 108)) r
+      | [] => none
+    else if 251 ≤ b0 ∧ b0 ≤ 254 then
+      match rest with
+      | b1 :: r => num (.int ((251 - (b0 : Int)) * 256 - b1 - 108)) r
+      | [] => none
+    else if b0 = 28 then
+      match rest with
+      | b1 :: b2 :: r => num (.int (toI16 (b1 * 256 + b2))) r
+      | _ => none
+    else if b0 = 255 then
+      match rest with
+      | b1 :: b2 :: b3 :: b4 :: r => num (.fixed (toI32 (((b1 * 256 + b2) * 256 + b3) * 256 + b4))) r
+      | _ => none
+    else
+      let oc : Option (Nat × List Nat) :=
+        if b0 = 12 then (match rest with | b1 :: r => some (12 * 256 + b1, r) | [] => none) else some (b0, rest)
+      match oc with
+      | none => none
+      | some (c, r) =>
+        match opOfCode c with
+        | none => none
+        | some o =>
+          if o == .hintmask || o == .cntrmask then
+            match Spec.T2.afterWidth a .hintmask with
+            | none => none
+            | some n =>
+              let k := (a.nStems + n / 2 + 7) / 8
+              if k ≤ r.length then num (.mask (o == .cntrmask) (r.take k)) (r.drop k) else none
+          else num (.op o) r
+
+@[noinline] def wfFlags (code : List Nat) : String :=
+  match tokRun (code.length + 1) {} code [] with
+  | some (a, toks) =>
+    if a.ended && Spec.T2.encode toks == code then
+      (if Spec.T2.agreesCheck toks then "wf agrees" else "wf")
+    else "nowf"
+  | none => "nowf"
+
 def handleC04 (op : String) (fs : List (String × String)) : String :=
   if op == "t2.encnum" then
     match getField fs "n" >>= parseInt?, getField fs "k" >>= String.toNat? with
@@ -216,6 +267,10 @@ def handle (op : String) (fs : List (String × String)) : String :=
         | .ok s => if s.inexact then "inexact" else "exact"
         | _ => "err"
     | _, _ => "bad-case"
+  else if op == "t2.wf" then
+    match getField fs "code" >>= hexToNats with
+    | some code => wfFlags code
+    | none => "bad-case"
   else if op == "t2.q" then
     -- diagnosis: run with an explicit quirk vector (10 characters 0/1, field order of `Quirks`)
     match parseEnv fs, getField fs "code" >>= hexToNats, getField fs "bits" with
